@@ -23,6 +23,7 @@ import subprocess
 import time
 
 from vlib import core
+from checks import c10
 
 PROP = "C18"
 STRUCT_TYPES = ["scalars", "tags", "coll", "ptr", "ifacestruct", "embed", "embedptr", "special", "annint", "annlist",
@@ -43,7 +44,7 @@ def reader_cases(wd, seed, per_cat):
     for cat in (2, 3, 4, 5):
         for _ in range(per_cat):
             n = rnd.randint(2, 6)
-            hists.append(dict(cat=cat, h=[rnd.choice([rnd.randint(2, 28), rnd.randint(31, 38), rnd.randint(29, 38)]) for _ in range(n)]))
+            hists.append(dict(cat=cat, h=[rnd.choice([rnd.randint(2, c10.NTABLES - 4), rnd.randint(c10.NTABLES + 1, c10.NITEMS), rnd.randint(c10.NTABLES - 3, c10.NITEMS)]) for _ in range(n)]))
     nsh = 8
     shards = core.shard(hists, nsh)
 
